@@ -12,7 +12,7 @@ use poulpy_hal::{
 };
 
 use crate::{
-    CKKSInfos, CKKSMeta, checked_log_budget_sub, checked_mul_ct_log_budget, checked_mul_pt_log_budget,
+    CKKSInfos, CKKSMeta, checked_log_budget_sub, checked_mul_ct_log_budget, checked_mul_pt_log_budget, ensure_base2k_match,
     layouts::{
         CKKSCiphertext,
         plaintext::{
@@ -251,6 +251,7 @@ pub(crate) trait CKKSMulDefault<BE: Backend> {
         Self: GLWEMulPlain<BE>,
         Scratch<BE>: ScratchAvailable + ScratchTakeCore<BE>,
     {
+        ensure_base2k_match("ckks_mul_pt_vec_znx_into", a.base2k().as_usize(), pt_znx.base2k().as_usize())?;
         let (res_log_budget, res_log_delta, cnv_offset) = get_mul_pt_params(dst, a, pt_znx)?;
         self.glwe_mul_plain(
             cnv_offset,
@@ -276,6 +277,7 @@ pub(crate) trait CKKSMulDefault<BE: Backend> {
         Self: GLWEMulPlain<BE>,
         Scratch<BE>: ScratchAvailable + ScratchTakeCore<BE>,
     {
+        ensure_base2k_match("ckks_mul_pt_vec_znx_assign", dst.base2k().as_usize(), pt_znx.base2k().as_usize())?;
         let (res_log_budget, res_log_delta, cnv_offset) = get_mul_pt_params(dst, dst, pt_znx)?;
         let dst_effective_k = dst.effective_k();
 
